@@ -11,6 +11,16 @@ pub mod thread {
     pub use loom::thread::*;
 }
 
+/// `std::hint::spin_loop()` inside a wait loop tells loom's scheduler to run somebody else, as
+/// loom requires of spin-wait loops.
+pub mod hint {
+    pub use std::hint::*;
+
+    pub fn spin_loop() {
+        loom::hint::spin_loop()
+    }
+}
+
 pub mod sync {
     // `Arc`, `Weak`, `Once`, `Barrier` … stay std's (loom's `Arc` cannot be unsized to `Arc<dyn Fn>`).
     pub use self::locks::{
